@@ -2,6 +2,7 @@ package rules
 
 import (
 	"go/token"
+	"go/types"
 	"strings"
 
 	"golang.org/x/tools/go/ssa"
@@ -628,6 +629,180 @@ func c13(c *core.Ctx) {
 				}
 				c.Check(ok, k, hc.Fn.Pos(), "handler context carries peer.NewContext(ctx, peerFromRequest(r))", "handler context does not carry the peer built from the request")
 			}
+		}
+		c.EndRule()
+	}
+
+	// ---------------------------------------------------------------- R5
+	if c.Rule("R5", "the credentials' metadata is what goes on the wire: in the HTTP client functions that build or issue the request, no function of the module that is handed the request's header set writes into it or into its value slices (a \"redacted copy for the log\" whose slices alias the original overwrites the Authorization value that is about to be sent)", 2) {
+		n := 0
+		for _, fn := range p.LibFuncs("httpgrpc") {
+			builds := false
+			core.Instrs(fn, func(in ssa.Instruction) {
+				if isRequestIssue(in) {
+					builds = true
+				}
+				if cc := core.CallOf(in); cc != nil {
+					if ci := core.InfoOf(cc); ci.Is("net/http.NewRequest") || ci.Is("net/http.NewRequestWithContext") {
+						builds = true
+					}
+				}
+			})
+			if !builds {
+				continue
+			}
+			n++
+			bad := ""
+			var where token.Pos
+			core.Instrs(fn, func(in ssa.Instruction) {
+				call, ok := in.(*ssa.Call)
+				if !ok {
+					return
+				}
+				h := call.Call.StaticCallee()
+				if h == nil || h.Blocks == nil || !strings.HasPrefix(core.InfoOf(&call.Call).Pkg, core.ModulePath) {
+					return
+				}
+				for i, a := range call.Call.Args {
+					if (core.TypeStr(a.Type()) == "net/http.Header" || core.TypeStr(a.Type()) == "*net/http.Request") && i < len(h.Params) && writesIntoMD(h, h.Params[i], 0) {
+						bad, where = h.Name(), call.Pos()
+					}
+				}
+			})
+			key := core.FuncName(fn) + ":request-headers-not-rewritten"
+			if bad != "" {
+				c.Fail(key, where, "%s is handed a header set of the call and writes into it (or into value slices it shares with it): what the credentials contributed is not what the server receives", bad)
+			} else {
+				c.Ok(key, fn.Pos(), "no module function handed a header set writes into it")
+			}
+		}
+		if n < 2 {
+			c.Fail("httpgrpc:request-building-functions", token.NoPos, "ANCHOR-MISSING: expected the unary and the streaming request construction, found %d", n)
+		}
+		c.EndRule()
+	}
+
+	// ---------------------------------------------------------------- R4
+	if c.Rule("R4", "of several per-RPC-credentials options the LAST one counts (gRPC's rule: a stub's default options come first in the list, the call's own after them): the credentials field of the collected call options is assigned inside the loop over the whole option list, which is not left once a match is found", 1) {
+		n := 0
+		for _, fn := range p.LibFuncs("internal") {
+			if fn.Parent() != nil || len(fn.Params) != 1 || !strings.HasSuffix(core.TypeStr(fn.Params[0].Type()), "grpc.CallOption") {
+				continue
+			}
+			if _, isSl := fn.Params[0].Type().Underlying().(*types.Slice); !isSl {
+				continue
+			}
+			core.Instrs(fn, func(in ssa.Instruction) {
+				st, ok := in.(*ssa.Store)
+				if !ok {
+					return
+				}
+				base, fld, isF := core.FieldOf(st.Addr)
+				if !isF || core.NamedOf(base.Type()) != "CallOptions" || !strings.HasSuffix(core.TypeStr(st.Val.Type()), "PerRPCCredentials") {
+					return
+				}
+				n++
+				key := core.FuncName(fn) + ":" + fld + ":last-option-wins"
+				// selected where? In the loop over the options of fn itself, or in a helper that is handed them
+				lastWins := func(f *ssa.Function, sel ssa.Instruction, ends func(ssa.Instruction) bool) (bool, string) {
+					loops := core.LoopOf(f)
+					id := loops[sel.Block()]
+					if id < 0 {
+						return false, "the selection is not made in a loop over the options"
+					}
+					// from the selection, the function's end is reached only through the loop's own exit: every path
+					// passes the loop header again
+					var hdr *ssa.BasicBlock
+					for _, b := range f.Blocks {
+						if loops[b] != id {
+							continue
+						}
+						for _, pr := range b.Preds {
+							if loops[pr] != id {
+								hdr = b
+							}
+						}
+					}
+					if hdr == nil {
+						return false, "loop header not found"
+					}
+					reach := core.Walk(core.After(sel), func(x ssa.Instruction) bool { return x.Block() == hdr && x == hdr.Instrs[0] }, nil)
+					for x := range reach {
+						if ends(x) {
+							return false, "the loop is left as soon as one option matched: the first option of the kind is used and a later one (the call's own override of a stub-level default) ignored"
+						}
+					}
+					return true, ""
+				}
+				isRet := func(x ssa.Instruction) bool { _, r := x.(*ssa.Return); return r }
+				if core.LoopOf(fn)[st.Block()] >= 0 {
+					ok, why := lastWins(fn, st, isRet)
+					c.Check(ok, key, st.Pos(), "assigned on every match inside the loop over the whole option list", why)
+					return
+				}
+				// through a helper: the value is (part of) the result of a module function handed the option list
+				decided := false
+				for _, o := range core.Origins(st.Val) {
+					var call *ssa.Call
+					if fa, isFA := o.(*ssa.Field); isFA {
+						if cr, _, ok := core.CallResult(fa.X); ok {
+							call = cr
+						}
+					}
+					if cr, _, ok := core.CallResult(o); ok && call == nil {
+						call = cr
+					}
+					if base, _, isF := core.FieldOf(o); isF && call == nil {
+						if cr, _, ok := core.CallResult(base); ok {
+							call = cr
+						}
+					}
+					if call == nil {
+						continue
+					}
+					h := call.Call.StaticCallee()
+					if h == nil || h.Blocks == nil {
+						continue
+					}
+					h = core.Generic(h)
+					// the type assertions on the ranged element
+					core.Instrs(h, func(x ssa.Instruction) {
+						ta, isTA := x.(*ssa.TypeAssert)
+						if !isTA || decided {
+							return
+						}
+						decided = true
+						ok, why := lastWins(h, ta, isRet)
+						c.Check(ok, key, st.Pos(), "selected by "+h.Name()+", which looks at the whole option list", "selected by "+h.Name()+": "+why)
+					})
+				}
+				if !decided {
+					// ... or the helper answers with the option itself (find[O](opts) (O, bool))
+					for _, call := range core.CallsIn(fn, func(call *ssa.Call, ci core.CallInfo) bool {
+						if ci.Static == nil || ci.Static.Blocks == nil || len(call.Call.Args) == 0 || call.Call.Args[0] != ssa.Value(fn.Params[0]) {
+							return false
+						}
+						return strings.Contains(core.TypeStr(call.Type()), "PerRPCCredsCallOption")
+					}) {
+						h := core.Generic(call.Call.StaticCallee())
+						core.Instrs(h, func(x ssa.Instruction) {
+							ta, isTA := x.(*ssa.TypeAssert)
+							if !isTA || decided {
+								return
+							}
+							decided = true
+							ok, why := lastWins(h, ta, isRet)
+							c.Check(ok, key, st.Pos(), "selected by "+h.Name()+", which looks at the whole option list", "selected by "+h.Name()+": "+why)
+						})
+					}
+				}
+				if !decided {
+					c.Undecided(key, st.Pos(), "cannot see how the credentials option is selected from the option list")
+				}
+			})
+		}
+		if n == 0 {
+			c.Missing("store of the per-RPC credentials into the collected call options (internal)")
 		}
 		c.EndRule()
 	}
